@@ -3,7 +3,7 @@
 # /verif with its own target dir), so /repo and /verif stay usable meanwhile. Writes seeded/RESULTS.tsv in
 # the scratch copy; tools/seed_results.py folds it into seeded/*/meta.json and RESULTS.md.
 set -u
-S=/tmp/vseed
+S=${SEED_SCRATCH:-/tmp/vseed}
 if [ ! -d $S/repo ]; then mkdir -p $S; git -C /repo worktree add --detach $S/repo HEAD >/dev/null 2>&1; cp /repo/Cargo.lock $S/repo/; fi
 git -C $S/repo checkout -q --detach $(git -C /repo rev-parse HEAD); git -C $S/repo checkout -- .
 mkdir -p $S/verif
@@ -12,6 +12,10 @@ find $S/verif -mindepth 1 -maxdepth 1 ! -name target -exec rm -rf {} +
 git -C /verif archive ${REV:-HEAD} | tar -x -C $S/verif
 sed -i "s|path = \"/repo\"|path = \"$S/repo\"|" $S/verif/harness/Cargo.toml
 sed -i "s|target-dir = \"/verif/target\"|target-dir = \"$S/verif/target\"|" $S/verif/harness/.cargo/config.toml
+if [ -d $S/verif/harness_alt ]; then
+  sed -i "s|path = \"/repo\"|path = \"$S/repo\"|" $S/verif/harness_alt/Cargo.toml
+  sed -i "s|target-dir = \"/verif/target/alt\"|target-dir = \"$S/verif/target/alt\"|" $S/verif/harness_alt/.cargo/config.toml
+fi
 cd $S/verif && VERIF_ROOT=$S/verif ./vcheck setup >/dev/null 2>&1
 : > $S/RESULTS.tsv
 for d in /verif/seeded/*/; do
